@@ -60,6 +60,15 @@ CHECKS = {
         "Trusted: analytic derivatives of cosines, numpy FFT for the independent Poisson residual. Bounds on N and the L lattice.",
         "DESIGN.md §4 C05",
     ),
+    "C11": (
+        "bounded exhaustive exploration: the complete operator matrix from all grid deltas (linearity lift), SVD / Gram-matrix oracles",
+        "For every linear stepper variant with non-amplifying coefficients, D=1..3, odd/even N, three domain extents and dt up to 1e6, the stepper is "
+        "applied to every grid delta, giving the full matrix of the map on ALL real states (white noise and Nyquist content included). ||M||_2<=1, the "
+        "mode-by-mode bound by e^{Re lambda dt}, strict damping off the constants, isometry of advection/dispersion on odd grids and on the Nyquist-free "
+        "subspace, conservation of the independently built wave energy form, and repeat(S,n)=M^n for n up to 64 are then decided by linear algebra.",
+        "Trusted: numpy SVD, reference symbols (mc/ref.py). Bounds on N (matrix sizes up to 125x125 in 3D) and the L/dt/coefficient lattices.",
+        "DESIGN.md §4 C11",
+    ),
     "C14": (
         "bounded exhaustive exploration of the option product, lock-step with a plain-loop reference model",
         "Every (n, include_init, takes_aux, constant_aux, pytree shape, aux shape) combination up to the bound, every window (T, sub_len), "
